@@ -144,10 +144,16 @@ def excel_rows(source_path, sheet=1):
                     location.advance_cell()
                 yield row
                 location.advance_line()
-    except xlrd.XLRDError as error:
-        raise errors.DataFormatError("cannot read Excel file: %s" % error, location)
+    except errors.DataFormatError:
+        raise
+    except EnvironmentError:
+        raise
     except UnicodeError as error:
         raise errors.DataFormatError("cannot decode Excel data: %s" % error, location)
+    except Exception as error:
+        # A broken container makes xlrd and the modules it uses fail with errors of various kinds
+        # (for example zipfile.BadZipFile, zlib.error, KeyError, xlrd.xldate.XLDateError).
+        raise errors.DataFormatError("cannot read Excel file: %s" % error, location)
 
 
 def _raise_delimited_data_format_error(delimited_path, reader, error):
